@@ -69,7 +69,7 @@ func init() {
 			}
 			return append(genUnits([]genSpec{
 				{prop: "C06", logger: "codec", preset: "empty", depth: d, replica: true, rich: true},
-				{prop: "C06", logger: "channel", preset: "two-blocks", depth: d, replica: true, rich: true},
+				{prop: "C06", logger: "channel", preset: "two-blocks", depth: d, replica: true, rich: tier != "quick"},
 				{prop: "C06", logger: "log", preset: "two-blocks", depth: d - 1, replica: true, rich: true, comp: true},
 				{prop: "C06", keyed: true, logger: "channel", preset: "empty", depth: d, replica: true, comp: true},
 				{prop: "C06", keyed: true, logger: "codec", preset: "two-blocks", depth: d - 1, replica: true},
